@@ -179,6 +179,21 @@ def check(model, rep):
                             rep.holds('C06.kind', name, 'rejected on every path (TypeError)', loc)
                     continue
                 accepted.append((left, op, right))
+                # an accepted pair is accepted for the whole range of its operands: besides TypeError (kind), a path may raise only
+                # ZeroDivisionError for a division and ValueError when the RESULT kind (or an operand kind) carries a sign constraint
+                from sa.spec.si import SIGN
+                for o in outs:
+                    if isinstance(o, Outcome) and o.kind == 'raise':
+                        exc = o.value
+                        fine = exc == 'TypeError' or (exc == 'ZeroDivisionError' and op == '/') or \
+                            (exc == 'ValueError' and (want in SIGN or left in SIGN or right in SIGN and want in SIGN))
+                        if exc == 'ValueError' and want not in SIGN:
+                            fine = False
+                        if not fine:
+                            rep.violation('C06.kind', where, f'the pair is accepted (returns {want}) but part of the operands\' range is refused with '
+                                          f'{exc} (line {o.loc}) although the result kind {want} has no sign constraint: whether the operation '
+                                          f'is defined depends on the magnitude', loc, triple=name)
+                            break
                 ok_kind = ok_si = ok_unit = True
                 detail_k = detail_s = detail_u = ''
                 udep = False
